@@ -1,6 +1,6 @@
 PROP = dict(
     id="C07",
-    lean_modules=[],
+    lean_modules=["TongoProofs.C07"],
     gen=[],
     spec_ops=(),
     rule="(draft)",
